@@ -43,7 +43,7 @@ def clean_json(o):
 
 
 def judge_traces(report, module, cfg, traces, rundir, batch=400, workers=None, timeout=3000, env=None):
-    """traces: list of {'id': int, 'ev': [events]}.  Returns {(id, l): (kind, detail)}.
+    """traces: list of {'id': int, 'ev': [events]}.  Returns {(id, l, group): (kind, detail)}.
 
     One TLC run per batch; every event must come back with exactly one VERDICT line, otherwise
     the batch is re-run single-threaded, and if that fails too the run is a machinery failure."""
@@ -54,7 +54,7 @@ def judge_traces(report, module, cfg, traces, rundir, batch=400, workers=None, t
         with open(path, "w") as f:
             for t in chunk:
                 f.write(json.dumps(clean_json(t), separators=(",", ":")) + "\n")
-        expect = {(t["id"], l + 1) for t in chunk for l in range(len(t["ev"]))}
+        expect = {(t["id"], l + 1, g) for t in chunk for l, e in enumerate(t["ev"]) for g in e.get("groups", ["elim"])}
         got = None
         for attempt, w in enumerate((workers or NPROC, 1)):
             e = {"TRACE_FILE": path}
@@ -72,13 +72,13 @@ def judge_traces(report, module, cfg, traces, rundir, batch=400, workers=None, t
             for tid, lst in v.items():
                 for fields in lst:
                     try:
-                        key = (int(tid), int(fields[0]))
+                        key = (int(tid), int(fields[0]), fields[1])
                     except (ValueError, IndexError):
                         bad = True
                         continue
                     if key in got:
                         bad = True
-                    got[key] = (fields[1], fields[2] if len(fields) > 2 else "")
+                    got[key] = (fields[2], fields[3] if len(fields) > 3 else "")
             if not bad and set(got) == expect:
                 report.add_tlc(stats_of(res))
                 break
